@@ -56,7 +56,8 @@ def tag_for(fn, args, kw, me):
                 return "a-side-has-one-frame-label"
         if fn.startswith("pattern."):
             ref, est = args[0], args[1]
-            protos = [tuple(sorted((round(o - p[0][0][0], 6), m) for o, m in p[0])) for p in ref]
+            # translation in time AND pitch (standard_FPR compares point-to-point differences; single notes always match)
+            protos = [tuple((round(o - p[0][0][0], 6), round(m - p[0][0][1], 6)) for o, m in p[0]) for p in ref if p and p[0]]
             if len(set(protos)) < len(protos):
                 return "reference-prototypes-coincide-up-to-translation"
         if fn == "chord.weighted_accuracy":
